@@ -129,7 +129,7 @@ class AlarmTime:
             return True
         if self._snooze_until is not None and self._snooze_until > acknowledged:
             return True
-        trigger = self.trigger
+        trigger = to_datetime(self.trigger)
         if trigger.tzinfo is None:
             raise LocalTimezoneMissing(
                 "A local timezone is required to check if the alarm is still active. "
@@ -335,7 +335,8 @@ class Alarms:
     def _alarm_time(self, alarm: Alarm, trigger:date):
         """Create an alarm time with the additional attributes."""
         if getattr(trigger, "tzinfo", None) is None and self._local_tzinfo is not None:
-            trigger = normalize_pytz(trigger.replace(tzinfo=self._local_tzinfo))
+            # a date has no timezone: it starts at midnight in the local timezone
+            trigger = normalize_pytz(to_datetime(trigger).replace(tzinfo=self._local_tzinfo))
         return AlarmTime(alarm, trigger, self._last_ack, self._snooze_until, self._parent)
 
     def _get_absolute_alarm_times(self) -> list[AlarmTime]:
